@@ -57,6 +57,10 @@ FIXED = ['class A : ;', 'defvar = 1;', 'defset int = { }', 'defvar v = x[1...];'
          'defvar v = a.b.c[0, 1]{3-1}; ', 'defvar v = !foreach(x, [1], x);', 'let A<1> = 2, B = 3 in def X;',
          'class A<bits<2> b = {1, 0}, list<int> l = [1]> ;', 'if !eq(1, 2) then def A; else if 1 then def B;',
          'def : Outer<Inner<x = 1>>;', 'def d : A<B<x = 1>, 2>;', 'def d : A<B<1, y = 2>, C<z = 3>, w = D<4>>;', 'def d : Foo<!xor(a, b)>;',
+         'if 1 then if 2 then def A; else def B;', 'if 1 then def A; else def B;', 'if 1 then foreach i = [1] in if 2 then def A; else def B;',
+         'if 1 then let x = 1 in { def A; } else def B;', 'if 1 then { def A; } else if 2 then def B; else def C;',
+         'if 1 then if 2 then def A; else def B; else def C;', 'if 1 then let x = 1 in def A; else def B;',
+         'if 1 then foreach i = [1] in def A; else def B;',
          'defvar v = Foo<!add(a, b)>.f;', 'def d : A<[B<x = 1>], (op C<y = 2>:$n)>;', 'class A : B<!cond(1: C<x = 2>)>;']
 
 
@@ -77,6 +81,28 @@ class Grammars:
         self.bang = list(d["tok"]["bang"])
         self._mk = mk
         self._subset = {}
+        self.comp = mk(self.restricted_if(d["must"]))
+
+    @staticmethod
+    def restricted_if(must):
+        """the grammar of the whole-file completeness theorem (coq/proofs/C04Complete.v, comp_grammar): `must` with the rule of If
+        restricted so that an `else` follows a then-branch only if that branch is a block or a closed statement.  Mirrors
+        if_restrict / closed_rule / block_body there; a different shape of the documented rules raises (then the Coq side fails too)."""
+        r = dict(must)
+        i = must["If"]
+        if not (i[0] == "seq" and len(i[1]) == 5 and i[1][3][0] == "alt" and len(i[1][3][1]) == 2 and i[1][4][0] == "opt"):
+            raise D.GrammarError("unexpected shape of the documented rule of If")
+        kw, val, then, (_, (blk, st)), els = i[1]
+        r["If"] = ("seq", [kw, val, then, ("alt", [("seq", [blk, els]), ("seq", [("nt", "ClosedStatement"), els]), st])])
+        def block_body(x):
+            if not (x[0] == "seq" and len(x[1]) == 4 and x[1][3][0] == "alt"):
+                raise D.GrammarError("unexpected shape of a documented rule with a block body")
+            return ("seq", list(x[1][:3]) + [x[1][3][1][0]])
+        r["LetBlock"] = block_body(must["Let"])
+        r["ForeachBlock"] = block_body(must["Foreach"])
+        r["ClosedStatement"] = ("alt", [("nt", n) for n in ("Def", "Class", "Defm", "Defvar", "Dump", "Assert", "Include", "Defset",
+                                                              "MultiClass", "LetBlock", "ForeachBlock")])
+        return r
 
     def subset_grammar(self, which, keys):
         """grammar with only the listed deltas applied (cached)"""
@@ -396,6 +422,8 @@ def run(ctx):
     res = parse_flat(bindir, [t for _, t in cases])
     stats = {"ok": 0, "rejected": 0, "accepted": 0, "known-rejected": 0, "known-accepted": 0, "lex-mismatch": 0, "panic": 0}
     npos = nneg = 0
+    n_thm = n_oracle_only = n_doc_not_must = 0
+    oracle_only_examples = []
     worst = {}          # (verdict, signature) -> smallest case
     known_examples = {}
     distinct = set()
@@ -418,8 +446,16 @@ def run(ctx):
             must_clean.append((s, t))
         if gr.must.recognise(kinds):
             npos += 1
+            if gr.comp.recognise(kinds):
+                n_thm += 1                      # a sentence the whole-file theorem C04_complete_parse speaks about
+            else:
+                n_oracle_only += 1              # dangling else: decided by the oracle only
+                if len(oracle_only_examples) < 5:
+                    oracle_only_examples.append(t)
         elif not gr.trail.recognise(kinds):
             nneg += 1
+        elif gr.doc.recognise(kinds):
+            n_doc_not_must += 1                 # documented but excluded by a rejects:* delta: oracle / known finding only
         if v in ("rejected", "accepted"):
             if has_err:
                 sig = r["errors"][0][2]
@@ -598,6 +634,10 @@ def run(ctx):
         "sentences_of_must_grammar": npos,
         "non_sentences": nneg,
         "doc_alternatives_total": alts_total,
+        "sentences_under_theorem_C04_complete_parse": n_thm,
+        "sentences_under_oracle_only_dangling_else": n_oracle_only,
+        "sentences_under_oracle_only_examples": oracle_only_examples,
+        "documented_sentences_excluded_by_rejects_deltas": n_doc_not_must,
         "theorem_instance_sentences": len(thm_sents),
         "theorem_instance_sentences_clean": sum(1 for s in thm_sents if text_of(s) in clean_texts),
         "theorem_instance_max_tokens": max([len(s) for s in thm_sents] or [0]),
